@@ -442,3 +442,5 @@ def check_witness(w):
         if cls.endswith("!"):
             return Violation(f"C10|{cls[:-1]}", msg, {"kind": "program", "program": w["program"], "class": cls})
     return None
+
+MANIFEST_ADDENDUM = 'Oracle additions: the flag rule at the public API — in-place targets under every explicit constant= (base/view, three spellings), an explicit constant= on 21 functions of several tensors / sequence functions / calls that change nothing, conversions (astype, copy, astensor, tensor) under an explicit constant=.'
